@@ -278,6 +278,9 @@ def check_C09(ctx, deep=False):
             ctx.fail("measured-delay", status=status, case=list(case), delay_ms=delay, planned_ms=planned)
         else:
             ctx.sample({"go": list(case), "planned_ms": planned, "measured_ms": round(delay, 1)})
+    # "for the measured delay, all positions and schedules": under forced interleavings of the two threads (hook H6)
+    # every go must still be answered (the pauses themselves are not part of the plan, so no delay is judged here)
+    handover_sessions(ctx, 1 if ctx.quick else 10, "C09")
     # black box: the plan of a go depends on THAT go's parameters only — every ordered pair of
     # parameter classes (movestogo small / absent / other, increment branch) in one process, with
     # and without ucinewgame in between; each delay is judged against its own plan
